@@ -84,3 +84,16 @@ Lemma c_ec_dec_slices : bip38_ec_dec_slices = [(0, 2); (2, 3); (3, 7); (7, 15); 
 Proof. reflexivity. Qed.
 Lemma c_ec_factorb_slices : bip38_ec_factorb_slices = [(16, 0); (0, 8); (8, 0); (0, 16)]%nat.
 Proof. reflexivity. Qed.
+
+(* ---- Electrum / brainwallet / SPL token constants ---- *)
+Lemma c_v1_seq : electrum_v1_seq_addr_first = true /\ electrum_v1_seq_sep = [58].   (* f"{addr_idx}:{change_idx}:" *)
+Proof. split; reflexivity. Qed.
+Lemma c_v2_paths : electrum_v2_std_change_first = true /\ electrum_v2_segwit_change_first = true /\
+                   electrum_v2_segwit_acc_index = 2147483648.                          (* m/c/i, m/0'/c/i *)
+Proof. repeat split; reflexivity. Qed.
+Lemma c_bw_defaults : bw_pbkdf2_key_len = 32 /\ bw_pbkdf2_def_itr = 2097152 /\ bw_scrypt_key_len = 32 /\
+                      bw_scrypt_def_n = 131072 /\ bw_scrypt_def_r = 8 /\ bw_scrypt_def_p = 8.
+Proof. repeat split; reflexivity. Qed.
+Lemma c_spl : spl_bump_max = 255 /\ spl_seeds_max_num = 16%nat /\ ed25519_pub_len = 32%nat /\ ed25519_pub_prefix = [0] /\
+              spl_pda_marker = [80; 114; 111; 103; 114; 97; 109; 68; 101; 114; 105; 118; 101; 100; 65; 100; 100; 114; 101; 115; 115].
+Proof. repeat split; reflexivity. Qed.
